@@ -6,6 +6,8 @@ import (
 	"encoding/json"
 	"fmt"
 	"net"
+	"net/http"
+	"net/url"
 	"os"
 	"os/exec"
 	"path/filepath"
@@ -61,6 +63,9 @@ func c20Binary(c *vk.Case) {
 	}
 	if len(c.Res.Violations) == 0 {
 		c20BinaryShadow(c, bin)
+	}
+	if len(c.Res.Violations) == 0 {
+		c20BinaryStale(c, bin)
 	}
 	c.SetSig("binary:unknown-source")
 }
@@ -308,3 +313,147 @@ func c20BinaryOne(c *vk.Case, bin, variant string) {
 }
 
 var _ = fmt.Sprint
+
+// c20BinaryStale: an integration stored in the database runs when the process starts; its row is then removed and the
+// manager restarted (a source is added through the dashboard of the running process). The generation that comes up
+// runs the control integration of the file and no task for the removed one: what the database held at start-up is not
+// part of the file.
+func c20BinaryStale(c *vk.Case, bin string) {
+	ctx := context.Background()
+	pg, err := fakepg.New()
+	if err != nil {
+		c.Inconclusive("fakepg: %v", err)
+		return
+	}
+	defer pg.Close()
+	pg.SetSchemaScript(shovel.Schema)
+	pg.InstallSchema()
+	chain := simnode.NewChain(nextChainID(), gen.Content(gen.ChainOpts{Seed: c.R.U64(), MinTxs: 1, MaxTxs: 1}))
+	chain.Grow(6)
+	node := simnode.Global().NewNode(chain)
+	defer node.Retire()
+	mk := func(name, table string, enabled bool) map[string]any {
+		return map[string]any{
+			"name": name, "enabled": enabled, "sources": []any{map[string]any{"name": "src-a", "start": 1, "stop": 3}},
+			"table": map[string]any{"name": table, "columns": []any{map[string]any{"name": "tx_hash", "type": "bytea"}}},
+			"block": []any{map[string]any{"name": "tx_hash", "column": "tx_hash"}},
+		}
+	}
+	pool, err := wpg.NewPool(ctx, pg.URL())
+	if err != nil {
+		c.Inconclusive("pool: %v", err)
+		return
+	}
+	defer pool.Close()
+	stored := mk("ig-s", "t_s", true)
+	for _, n := range []string{"ig_name", "src_name", "block_num", "tx_idx"} {
+		ty := map[string]string{"ig_name": "text", "src_name": "text", "block_num": "numeric", "tx_idx": "int"}[n]
+		stored["table"].(map[string]any)["columns"] = append(stored["table"].(map[string]any)["columns"].([]any), map[string]any{"name": n, "type": ty})
+		stored["block"] = append(stored["block"].([]any), map[string]any{"name": n, "column": n})
+	}
+	cj, _ := json.Marshal(stored)
+	if _, err = pool.Exec(ctx, `insert into shovel.integrations(name, conf) values ($1, $2)`, "ig-s", cj); err != nil {
+		c.Inconclusive("storing the integration: %v", err)
+		return
+	}
+	dir, err := os.MkdirTemp("", "vc20bin")
+	if err != nil {
+		c.Inconclusive("tmp: %v", err)
+		return
+	}
+	defer os.RemoveAll(dir)
+	conf := map[string]any{
+		"pg_url":      pg.URL(),
+		"eth_sources": []any{map[string]any{"name": "src-a", "chain_id": 1, "url": node.URL(""), "poll_duration": "50ms"}},
+		// ig-t (switched off) only makes the process create the table the stored integration writes to
+		"integrations": []any{mk("ig-t", "t_s", false), mk("ig-y", "t_y", true)},
+	}
+	cfj, _ := json.Marshal(conf)
+	cfile := filepath.Join(dir, "config.json")
+	os.WriteFile(cfile, cfj, 0o644)
+	ln, err := net.Listen("tcp", "127.0.0.1:0")
+	if err != nil {
+		c.Inconclusive("listen: %v", err)
+		return
+	}
+	addr := ln.Addr().String()
+	ln.Close()
+	out := &lockedBuf{}
+	cmd := exec.Command(bin, "-config", cfile, "-l", addr)
+	cmd.Dir = dir
+	cmd.Stdout, cmd.Stderr = out, out
+	if err := cmd.Start(); err != nil {
+		c.Inconclusive("starting shovel: %v", err)
+		return
+	}
+	exited := make(chan error, 1)
+	go func() { exited <- cmd.Wait() }()
+	defer func() {
+		cmd.Process.Kill()
+		<-exited
+	}()
+	c.Obs("binary_stale_runs", 1)
+	c.Evals(1)
+	seen := func(name string) (n int, stmt string) {
+		for _, op := range pg.OpLog() {
+			if strings.Contains(op.SQL, "shovel-task-src-a-"+name) {
+				n++
+				stmt = op.SQL
+			}
+		}
+		return
+	}
+	waitFor := func(name string) bool {
+		for i := 0; i < 1500; i++ {
+			select {
+			case err := <-exited:
+				exited <- err
+				return false
+			default:
+			}
+			if n, _ := seen(name); n > 0 {
+				return true
+			}
+			time.Sleep(20 * time.Millisecond)
+		}
+		return false
+	}
+	if !waitFor("ig-y") || !waitFor("ig-s") {
+		c.Inconclusive("the file's and the database's integration did not both get a task at start-up: %s (unsupported: %v)", tail(out.String(), 600), pg.Unsupported())
+		return
+	}
+	// the stored integration goes away; a source added through the dashboard restarts the manager
+	if _, err := pool.Exec(ctx, `delete from shovel.integrations where name = $1`, "ig-s"); err != nil {
+		c.Inconclusive("removing the stored integration: %v", err)
+		return
+	}
+	time.Sleep(300 * time.Millisecond) // both ranges are short (stop 3): let the first generation go quiet
+	pg.ResetOps()
+	form := url.Values{"chainID": {"77"}, "name": {"src-new"}, "ethURL": {node.URL("")}}
+	hc := &http.Client{Timeout: 30 * time.Second, CheckRedirect: func(*http.Request, []*http.Request) error { return http.ErrUseLastResponse }}
+	resp, err := hc.PostForm("http://"+addr+"/save-source", form)
+	if err != nil {
+		c.Inconclusive("POST /save-source: %v: %s", err, tail(out.String(), 400))
+		return
+	}
+	resp.Body.Close()
+	if resp.StatusCode != http.StatusSeeOther && resp.StatusCode != http.StatusOK {
+		c.Inconclusive("POST /save-source answered %d: %s", resp.StatusCode, tail(out.String(), 400))
+		return
+	}
+	if !waitFor("ig-y") {
+		c.Inconclusive("the restarted manager created no task for the file's integration: %s", tail(out.String(), 600))
+		return
+	}
+	time.Sleep(400 * time.Millisecond) // tasks of one generation are created back to back
+	if us := pg.Unsupported(); len(us) > 0 {
+		c.Inconclusive("fakepg contract left by the real binary: %v", us)
+		return
+	}
+	if n, stmt := seen("ig-s"); n > 0 {
+		c.Violate("binary:removed-stored-integration-runs-after-restart", map[string]any{"statement": firstLines(stmt, 2), "file": string(cfj), "stored_at_start_up": string(cj)},
+			"integration ig-s was removed from shovel.integrations before the restart; the restarted manager created a task for it again: %s", firstLines(stmt, 1))
+		return
+	}
+	c.Obs("binary_stale_held", 1)
+}
